@@ -305,8 +305,7 @@ func genFlowChans(r *rand.Rand) ([]*chan35, [][]streamPlan, string, string) {
 		cls = append(cls, fmt.Sprintf("%s open=%v codes=%s pol=%d sizes=%s", wcls, c.muxOpens, codeSet(codes), c.policy, strings.Join(sc, ",")))
 		dkey = append(dkey, fmt.Sprintf("%s open=%v codes=%s pol=%d%s", dcls, c.muxOpens, codeSet(codes), c.policy, large))
 	}
-	sort.Strings(dkey[1:])
-	return chans, plans, fmt.Sprintf("flow n=%d | %s", nch, strings.Join(cls, " | ")), fmt.Sprintf("flow n=%d | %s", nch, strings.Join(dkey, " | "))
+	return chans, plans, fmt.Sprintf("flow n=%d | %s", nch, strings.Join(cls, " | ")), fmt.Sprintf("flow n=%d\n%s", nch, strings.Join(dkey, "\n"))
 }
 
 func uniq(s []string) []string {
@@ -637,7 +636,9 @@ func flowCase(m *mon.M, i int64, r *rand.Rand) {
 	m.Count("trickle_steps_completed", trickles)
 	m.Count("writer_goroutines", nWriters)
 	m.Eval()
-	m.Distinct(dkey)
+	for _, k := range strings.Split(dkey, "\n") {
+		m.Distinct(k) // one class per channel configuration (and one for the channel count)
+	}
 	if i < 3 {
 		m.Sample(map[string]any{"workload": "flow", "case": cls, "parked_writers_seen": parks, "trickle_steps": trickles, "peer": peer.state()})
 	}
